@@ -4,5 +4,4 @@ import SparseV.Props.C07
 #print axioms SparseV.C07.guard_dominates
 #print axioms SparseV.C07.array_guard
 #print axioms SparseV.C07.densemix_decision
-#print axioms SparseV.C07.fill_contribution_partial
-#print axioms SparseV.C07.fill_contribution_counterexample
+#print axioms SparseV.C07.fill_contribution
